@@ -33,8 +33,8 @@ WFILE_UNWIND = {
 }
 
 
-def _wfile(prefix, name, k, fdatasync, sizes=None, ops=1, tier="quick", timeout=300):
-    defs = {"VP_NAME": name, "VP_K": k, "VP_OPS": ops}
+def _wfile(prefix, name, k, fdatasync, sizes=None, ops=1, intrs=1, shorts=1, tier="quick", timeout=300):
+    defs = {"VP_NAME": name, "VP_K": k, "VP_OPS": ops, "VP_INTRS": intrs, "VP_SHORTS": shorts}
     nm = "%s.wfile-%s-K%d-%s" % (prefix, {0: "log", 1: "manifest", 2: "manifest-cwd", 3: "manifest-root",
                                           4: "table-in-manifestdir", 5: "manifest-dslash"}[name], k,
                                  "fdatasync" if fdatasync else "fsync")
@@ -47,6 +47,8 @@ def _wfile(prefix, name, k, fdatasync, sizes=None, ops=1, tier="quick", timeout=
     if not ops:
         nm += "-noops"
     uw = dict(WFILE_UNWIND)
+    # retry loops: bounded by the EINTR / short-write budgets of the model
+    uw.update({"ldb_open.0": intrs + 2, "ldb_write.0": intrs + 2, "ldb_write.1": shorts + 2, "ldb_fsync.0": intrs + 2})
     return Obl(nm, "envunix/wfile.c", real=REAL, include_real=["util/env.c", "util/env_unix_impl.h"], kit=KIT,
                defs=defs, real_defs=(POSIX_DEFS if fdatasync else {}),
                unwind=VP_UNWIND, unwindset=uw, timeout=timeout, tier=tier, functions=WFILE_FUNCS,
@@ -67,6 +69,7 @@ def wfile_obls(prefix):
     for fds in (0, 1):
         out.append(_wfile(prefix, 0, 2, fds))
         out.append(_wfile(prefix, 1, 2, fds))
+    out.append(_wfile(prefix, 0, 1, 0))
     out.append(_wfile(prefix, 2, 1, 1))
     out.append(_wfile(prefix, 3, 1, 1))
     out.append(_wfile(prefix, 4, 1, 1))
